@@ -139,6 +139,12 @@ fn check_op(n: usize, a: &Key, b: &Key, op: &str) -> Result<Key, (String, String
                 return fail(format!("all forms of {} agree", op), format!("{} vs {}", s, forms[0]));
             }
         }
+        // both operands the SAME object: `&a & &a`, `&a | &a` are results of an operation too
+        // (a, whatever cubes it was built from: irredundant cover of the same function)
+        if op != "not" {
+            check_result("&a & &a (both operands the same object)", n, &(&sa & &sa), &fa)?;
+            check_result("&a | &a (both operands the same object)", n, &(&sa | &sa), &fa)?;
+        }
         if key_of(&sa) != *a || key_of(&sb) != *b {
             return fail("operands unchanged", format!("{} / {}", sa, sb));
         }
